@@ -332,6 +332,10 @@ func (c *UDPConn) PopErrQueue() (TxStamp, bool) {
 	return s, true
 }
 
+// QueueErr appends an entry to the socket's error queue (a transmit timestamp
+// that the kernel delivers late).
+func (c *UDPConn) QueueErr(st TxStamp) { c.errq = append(c.errq, st) }
+
 // ErrQueueLen returns the number of unread TX timestamps.
 func (c *UDPConn) ErrQueueLen() int { return len(c.errq) }
 
